@@ -1,6 +1,7 @@
 package pipe
 
 import (
+	"bytes"
 	"encoding/json"
 	"flag"
 	"fmt"
@@ -81,6 +82,19 @@ func parseTag(b []byte) (int, int, bool) {
 }
 
 func b(s string) []byte { return []byte(s) }
+
+// inlineSafe: the request can be written as an inline command (space separated words)
+func inlineSafe(args [][]byte) bool {
+	for i, a := range args {
+		if len(a) == 0 || bytes.ContainsAny(a, " \r\n\t\"'") {
+			return false
+		}
+		if i == 0 && bytes.IndexByte([]byte("+-:$*"), a[0]) >= 0 {
+			return false
+		}
+	}
+	return len(args) > 0
+}
 
 func genReq(rnd *rand.Rand, c, k int) pipeReq {
 	switch x := rnd.Intn(20); {
@@ -319,6 +333,10 @@ func runPipelineOnce(run int, o pipeOpts, traceW *cli.NDJSONWriter) (res pipeRes
 				for k, rq := range plan {
 					emit(pipeEvent{Ev: "send", C: c, K: k + 1, Kind: rq.kind})
 					raw := resp.Bytes(resp.CmdB(rq.args...))
+					if inlineSafe(rq.args) && r3.Intn(3) == 0 {
+						// the inline form must be treated exactly like its array form
+						raw = append(bytes.Join(rq.args, []byte(" ")), '\r', '\n')
+					}
 					if o.fragment {
 						for len(raw) > 0 {
 							n := 1 + r3.Intn(len(raw))
